@@ -402,7 +402,7 @@ META = {
     "level": "Static all-paths decision of the structural clauses of C02: in slice, operator+/+=, cast, clone, copyFrom x4, copyTo x4, setDtype, unwrap every dereference of a handle's mode "
              "pointer is dominated by a non-null guard on that very object; every call that addresses bytes (modeMemory_t::copyFrom/copyTo/slice) is dominated by sign guards on offset and "
              "byte count and by bytes+offset<=size of the object addressed at that offset, the guards being bound by data flow to the passed variables; the memory-to-memory mover is overlap "
-             "tolerant; slices are views into the parent buffer and clones are fresh allocations; Serial movers copy exactly `bytes` between ptr+offset operands. Each is a necessary "
+             "tolerant; slices are views into the parent buffer and clones are fresh allocations; Serial movers copy exactly `bytes` between ptr+offset operands on every call (an early exit only for bytes == 0 or the identical range). Each is a necessary "
              "condition of the byte-array behaviour with a concrete failing request when broken; all requests are covered because guards are checked on every path.",
     "note": "Does not decide that read values equal a byte-array model (value-level), nor dim_t overflow of dtypeSize*count. Trusted: clang AST/CFG, the extractor, the branch-fact engine "
             "(facts killed by direct writes only), OCCA_ERROR guards compiled in (OCCA_UNSAFE=0).",
